@@ -224,7 +224,7 @@ func c13Specs() []*edt.Spec {
 		},
 		{
 			Pkg: "internal/strobe", Func: "(*Strobe).operate", Opaque: strobeOpaque, MinPaths: 4,
-			Vars: map[string]string{"$s.initialized": "initialized", "($more == true)": "more", "($more == false)": "!more", "($f == $s.curFlags)": "sameFlags"},
+			Vars: map[string]string{"$s.initialized": "initialized", "$more": "more", "($f == $s.curFlags)": "sameFlags"},
 			Classify: func(p *edt.Path, out string, e *edt.Env) string {
 				switch {
 				case p.Panic != nil:
